@@ -184,6 +184,23 @@ type Gen struct {
 	// Fail: some conditions cannot be evaluated (they read a variable that does not exist): the engine reports an
 	// error trace and treats the alternative as not true
 	Fail bool
+	// LoopVar: conditions inside a loop body may read the counter of an enclosing loop (0 during the first
+	// iteration, k after the k-th): the same gateway decides differently on later visits. Bodies generated
+	// in this mode keep all their tokens inside the iteration (no branch with an end event of its own, no
+	// conditional-flow task), so nothing reads the counter while the loop's task writes it.
+	LoopVar bool
+	loops   []string
+}
+
+// LoopVars lists the loop counters of a program.
+func LoopVars(b *Block) []string {
+	var out []string
+	b.Walk(func(x *Block) {
+		if x.Kind == "loop" {
+			out = append(out, x.Var)
+		}
+	})
+	return out
 }
 
 // WVars lists the task-written data variables (w...) of a program.
@@ -221,6 +238,13 @@ func settled(b *Block) bool {
 func (gn *Gen) cond() *Cond {
 	if gn.Fail && gn.R.Intn(5) == 0 {
 		return &Cond{Kind: "fail"}
+	}
+	if gn.LoopVar && len(gn.loops) > 0 && gn.R.Intn(3) > 0 {
+		c := &Cond{Kind: "var", Var: gn.loops[gn.R.Intn(len(gn.loops))], Op: ">", Val: int64(gn.R.Intn(2))}
+		if gn.R.Intn(3) == 0 {
+			c.Op = "=="
+		}
+		return c
 	}
 	if gn.Data && len(gn.avail) > 0 && gn.R.Intn(2) == 0 {
 		c := &Cond{Kind: "var", Var: gn.avail[gn.R.Intn(len(gn.avail))], Op: ">", Val: 0}
@@ -266,6 +290,9 @@ func (gn *Gen) Block(kind string, depth int, terminalOK bool) *Block {
 	if kind == "or" && gn.NoOr {
 		kind = "xor"
 	}
+	if kind == "condtask" && len(gn.loops) > 0 {
+		kind = "xor"
+	}
 	switch kind {
 	case "task":
 		gn.Budget--
@@ -303,7 +330,7 @@ func (gn *Gen) Block(kind string, depth int, terminalOK bool) *Block {
 				b.Conds = append(b.Conds, gn.cond())
 			}
 			ends := false
-			if kind == "or" && gn.R.Intn(5) == 0 {
+			if kind == "or" && gn.R.Intn(5) == 0 && len(gn.loops) == 0 {
 				ends = true
 			}
 			b.Ends = append(b.Ends, ends)
@@ -326,8 +353,15 @@ func (gn *Gen) Block(kind string, depth int, terminalOK bool) *Block {
 	case "loop":
 		gn.nloop++
 		gn.Budget--
-		return &Block{Kind: "loop", Default: -1, Var: fmt.Sprintf("cnt%d", gn.nloop), Bound: 2 + gn.R.Intn(2),
-			Kids: []*Block{gn.Block("", depth-1, false)}}
+		lb := &Block{Kind: "loop", Default: -1, Var: fmt.Sprintf("cnt%d", gn.nloop), Bound: 2 + gn.R.Intn(2)}
+		if gn.LoopVar {
+			gn.loops = append(gn.loops, lb.Var)
+		}
+		lb.Kids = []*Block{gn.Block("", depth-1, false)}
+		if gn.LoopVar {
+			gn.loops = gn.loops[:len(gn.loops)-1]
+		}
+		return lb
 	case "condtask":
 		gn.Budget--
 		n := 2 + gn.R.Intn(2)
